@@ -332,3 +332,70 @@ Example sched_pty_cancel_trace :
   map pev_code (ptrace (prun false sched_pty_cancel)) = [0; 1; 12; 30; 31; 2; 12; 3; 23]
   /\ q_pc (prun false sched_pty_cancel) = QEnd.
 Proof. vm_compute. split; reflexivity. Qed.
+
+(* ---- once the terminal frame is out the waiter reads no output and handles no request any more ---- *)
+Theorem pty_frozen_after_terminal : forall (keeps : bool) (sched more : list pact) (ap : bool),
+  q_pc (prun keeps sched) = QEnd ->
+  pstep keeps (prun keeps (sched ++ more)) QLoopChunk = None
+  /\ pstep keeps (prun keeps (sched ++ more)) (QLoopCtl ap) = None
+  /\ pstep keeps (prun keeps (sched ++ more)) QLoopCancel = None.
+Proof.
+  intros keeps sched more ap HM. unfold prun. rewrite fold_left_app.
+  destruct (pend_is_quiet_fold keeps more _ HM) as [_ Hp]. unfold prun in Hp.
+  unfold pstep. rewrite Hp. repeat split; reflexivity.
+Qed.
+
+(* ---- the language of a PTY task stream, spelled out ---- *)
+Definition is_mid (e : pev) : bool :=
+  match e with PE (LDelta _) => true | PCtl _ => true | _ => false end.
+
+Definition pshape (r : rst) (t : list pev) : Prop :=
+  match r with
+  | R0 => t = []
+  | RSpawned => t = [PE LSpawned]
+  | RRunning => exists ds, t = PE LSpawned :: PE LRunning :: ds /\ forallb is_mid ds = true
+  | RCancelReq => exists ds ds', t = PE LSpawned :: PE LRunning :: ds ++ PE LCancelReq :: ds'
+                                 /\ forallb is_mid ds = true /\ forallb is_mid ds' = true
+  | RCancelled => exists ds ds', t = PE LSpawned :: PE LRunning :: ds ++ PE LCancelReq :: ds' ++ [PE LCancelled]
+                                 /\ forallb is_mid ds = true /\ forallb is_mid ds' = true
+  | RDone st =>
+    (st = 4 /\ t = [PE LSpawned; PE (LStatus 4)])
+    \/ ((st = 2 \/ st = 4) /\ exists ds, t = PE LSpawned :: PE LRunning :: ds ++ [PE (LStatus st)] /\ forallb is_mid ds = true)
+    \/ ((st = 3 \/ st = 4) /\ exists ds ds', t = PE LSpawned :: PE LRunning :: ds ++ PE LCancelReq :: ds' ++ [PE LCancelled; PE (LStatus st)]
+                                 /\ forallb is_mid ds = true /\ forallb is_mid ds' = true)
+  | RBad => True
+  end.
+
+Theorem precognise_shape : forall t : list pev, pshape (precognise t) t.
+Proof.
+  intros t. induction t as [|e t IH] using rev_ind; [reflexivity|].
+  rewrite precognise_snoc.
+  destruct (precognise t) eqn:Er; cbn [pshape] in IH.
+  - subst t. destruct e as [e|k]; [destruct e|]; try exact I; reflexivity.
+  - subst t. destruct e as [e|k]; [destruct e|]; try exact I.
+    + cbn. exists []. split; reflexivity.
+    + cbn [prstep]. rewrite rstep_status. destruct (N.eqb_spec st 4) as [->|_]; [|exact I]. cbn. left. split; reflexivity.
+  - destruct IH as (ds & -> & Hd). destruct e as [e|k]; [destruct e|]; try exact I.
+    + cbn. exists (ds ++ [PE (LDelta stream)]). split; [reflexivity|]. rewrite forallb_snoc, Hd. reflexivity.
+    + cbn. exists ds, []. repeat split; auto.
+    + cbn [prstep]. rewrite rstep_status. destruct (N.eqb_spec st 2) as [->|_].
+      * cbn. right. left. split; [left; reflexivity|]. exists ds. split; [reflexivity|exact Hd].
+      * destruct (N.eqb_spec st 4) as [->|_]; [|exact I].
+        cbn. right. left. split; [right; reflexivity|]. exists ds. split; [reflexivity|exact Hd].
+    + cbn. exists (ds ++ [PCtl k]). split; [reflexivity|]. rewrite forallb_snoc, Hd. reflexivity.
+  - destruct IH as (ds & ds' & -> & Hd & Hd'). destruct e as [e|k]; [destruct e|]; try exact I.
+    + cbn. exists ds, (ds' ++ [PE (LDelta stream)]). split; [|split; [exact Hd|rewrite forallb_snoc, Hd'; reflexivity]].
+      repeat (cbn [app]; rewrite <- ?app_assoc); reflexivity.
+    + cbn. exists ds, ds'. split; [|split; assumption]. repeat (cbn [app]; rewrite <- ?app_assoc); reflexivity.
+    + cbn. exists ds, (ds' ++ [PCtl k]). split; [|split; [exact Hd|rewrite forallb_snoc, Hd'; reflexivity]].
+      repeat (cbn [app]; rewrite <- ?app_assoc); reflexivity.
+  - destruct IH as (ds & ds' & -> & Hd & Hd'). destruct e as [e|k]; [destruct e|]; try exact I.
+    cbn [prstep]. rewrite rstep_status. destruct (N.eqb_spec st 3) as [->|_].
+    + cbn. right. right. split; [left; reflexivity|]. exists ds, ds'. split; [|split; assumption].
+      repeat (cbn [app]; rewrite <- ?app_assoc); reflexivity.
+    + destruct (N.eqb_spec st 4) as [->|_]; [|exact I].
+      cbn. right. right. split; [right; reflexivity|]. exists ds, ds'. split; [|split; assumption].
+      repeat (cbn [app]; rewrite <- ?app_assoc); reflexivity.
+  - destruct e as [e|k]; [destruct e|]; exact I.
+  - destruct e as [e|k]; [destruct e|]; exact I.
+Qed.
